@@ -606,7 +606,22 @@ impl<'tcx> Cx<'tcx> {
             ]));
         }
         let _ = did;
+        // crates defining the ADTs that occur in the types of locals (who owns the data this body handles)
+        let mut adt_crates: Vec<(String, String)> = vec![];
+        for decl in body.local_decls.iter() {
+            for ga in decl.ty.walk() {
+                if let Some(t) = ga.as_type() {
+                    if let ty::Adt(adt, _) = t.kind() {
+                        let e = (tcx.crate_name(adt.did().krate).to_string(), def_str(tcx, adt.did()));
+                        if !adt_crates.contains(&e) {
+                            adt_crates.push(e);
+                        }
+                    }
+                }
+            }
+        }
         J::obj(vec![
+            ("adt_crates", J::Arr(adt_crates.into_iter().map(|(c, p)| J::Arr(vec![J::s(c), J::s(p)])).collect())),
             ("arg_count", J::Int(body.arg_count as i128)),
             ("locals", J::Arr(locals)),
             ("debug", J::Arr(dbg)),
